@@ -488,6 +488,40 @@ func transformStage(r *ev.Run) {
 			return x
 		}(),
 	}
+	// instancing: wrapping an object a second time (twice, to make two siblings) must leave the first wrapper - which
+	// may still be part of the scene - exactly as it was, and the two siblings must be equal to each other
+	{
+		probe := func(o render3d.Object) string {
+			var sb strings.Builder
+			fmt.Fprint(&sb, o.Min(), o.Max())
+			for _, org := range []c3{model3d.XYZ(-3.1, 0.2, 0.3), model3d.XYZ(0.4, 4.2, -0.3), model3d.XYZ(2.2, -1.9, 3.7), model3d.XYZ(0.1, 0.05, -0.02)} {
+				for _, d := range []c3{model3d.XYZ(1, 0, 0), model3d.XYZ(0, -1, 0), model3d.XYZ(-0.5, 0.4, -0.8), model3d.XYZ(0.3, 0.9, 0.2), model3d.XYZ(-1, -1, -1)} {
+					rc, _, ok := o.Cast(&model3d.Ray{Origin: org, Direction: d})
+					fmt.Fprint(&sb, ok, rc.Scale, rc.Normal, ";")
+				}
+			}
+			return sb.String()
+		}
+		for bi, b := range base {
+			for _, t1 := range atoms {
+				for _, t2 := range atoms {
+					r.Eval(1)
+					first := t1.wrap(b)
+					before := probe(first)
+					second := t2.wrap(first)
+					third := t2.wrap(first)
+					nc := ncase{"transformed-object", fmt.Sprintf("base %d: %s, then %s applied twice to the result", bi, t1.name, t2.name), nil}
+					if after := probe(first); after != before {
+						r.Violation("transformed-object/wrapped-object-changed", fmt.Sprintf("%s: the object wrapped first answers differently after it has been wrapped again", nc.Params), nc)
+						continue
+					}
+					if probe(second) != probe(third) {
+						r.Violation("transformed-object/siblings-differ", fmt.Sprintf("%s: the two wrappers of the same object answer differently", nc.Params), nc)
+					}
+				}
+			}
+		}
+	}
 	// every sequence of up to two (thorough: three) wrappers stacked directly on each other; the last one is outermost
 	maxLen := 2
 	if r.Thorough() {
